@@ -18,7 +18,7 @@ func init() {
 		ID:    "C15",
 		Level: "fault_enumeration",
 		Rule: "all function bodies of <=4 statements over the full alphabet and of 5 over a reduced one (thorough: <=5 over the full alphabet) statements over {print, value, defer, guarded defer true/false, return, guarded return true/false, raise, " +
-			"failing call, call of a function with its own defers, deferred expression that raises} plus iterator bodies with yield, each run in 4 contexts (direct call, called from a body with its own defer, inside a try step, iterator next); " +
+			"failing call, call of a function with its own defers, deferred expression that raises} plus iterator bodies with yield, each run in 7 contexts (direct call, called from a body with its own defer, three nested levels with several defers, as a method, per element of a list chain whose literal has its own defer, inside a try step, iterator next); " +
 			"stdout markers and outcome compared with a defer model; non-trivial = body contains a defer and an exit or a failing statement; distinct = distinct (body, context)",
 		Assumptions: []string{
 			"the value of a body whose last statement is a defer is a don't-care (only the trace is compared there)",
@@ -33,7 +33,7 @@ inner := {|| defer "id".p; "ip".p; 5}
 `
 
 // statement kinds
-var alphabet = []string{"P", "V", "D", "DT", "DF", "DN", "DZ", "R", "RT", "RF", "X", "CF", "CD", "DX"}
+var alphabet = []string{"P", "V", "D", "DT", "DF", "DN", "DZ", "DC", "R", "RT", "RF", "X", "CF", "CD", "DX"}
 var reduced = []string{"P", "D", "DN", "DZ", "R", "X", "CF", "DX"}
 var iterAlphabet = []string{"P", "D", "DF", "DN", "Y", "YT", "YN", "YF", "X", "DX"}
 
@@ -74,6 +74,8 @@ func stmtSrc(kind string, k int) string {
 		return "inner()"
 	case "DX":
 		return "defer fail()"
+	case "DC": // the deferred expression calls a function that has defers of its own
+		return "defer inner()"
 	case "Y":
 		return fmt.Sprintf("yield %d", 30+k)
 	case "YT":
@@ -131,6 +133,9 @@ func model(stmts []string) outcome {
 		case "DX":
 			defers = append(defers, "!")
 			valDC = true
+		case "DC":
+			defers = append(defers, "ip\nid")
+			valDC = true
 		case "Y", "YT", "YN":
 			if yielded == "" {
 				yielded = fmt.Sprint(30 + k)
@@ -185,6 +190,12 @@ func (t tcase) src() string {
 		return fmt.Sprintf("f := {||\n  %s\n}\ng := {||\n  defer \"gd\".p\n  r := f()\n  \"gp\".p\n  r\n}\ng()", b)
 	case "try":
 		return fmt.Sprintf("f := {||\n  %s\n}\nnil.try.{|x| f()}.A", b)
+	case "nested3":
+		return fmt.Sprintf("f := {||\n  %s\n}\ng := {||\n  defer \"gd\".p\n  r := f()\n  \"gp\".p\n  r\n}\nh := {||\n  defer \"hd1\".p\n  defer \"hd2\".p\n  r := g()\n  \"hp\".p\n  r\n}\nh()", b)
+	case "method":
+		return fmt.Sprintf("o := {m: m{\n  %s\n}}\nr := o.m\n\"after\".p\nr", b)
+	case "chain-elem":
+		return fmt.Sprintf("f := {|e|\n  %s\n}\n[1, 2]@{|e| defer \"cd\".p; f(e)}.len", b)
 	case "iter":
 		return fmt.Sprintf("it := <{||\n  %s\n}>.new\nit.next", b)
 	}
@@ -203,6 +214,28 @@ func expect(t tcase) outcome {
 			m.out += "gp\n"
 		}
 		m.out += "gd\n"
+	case "nested3":
+		if m.errKind == "" {
+			m.out += "gp\n"
+		}
+		m.out += "gd\n"
+		if m.errKind == "" {
+			m.out += "hp\n"
+		}
+		m.out += "hd1\nhd2\n"
+	case "method":
+		if m.errKind == "" {
+			m.out += "after\n"
+		}
+	case "chain-elem":
+		// the body runs once per element; an error at the first element ends the chain
+		one := m.out
+		if m.errKind == "" {
+			m.out = one + "cd\n" + one + "cd\n"
+			m.val = ""
+		} else {
+			m.out = one + "cd\n"
+		}
 	case "try":
 		if m.errKind == "" {
 			if m.val != "" {
@@ -220,7 +253,7 @@ func nontrivial(t tcase) bool {
 	hasDefer, hasExit := false, false
 	for _, s := range t.Stmts {
 		switch s {
-		case "D", "DT", "DF", "DX", "DN", "DZ":
+		case "D", "DT", "DF", "DX", "DN", "DZ", "DC":
 			hasDefer = true
 		case "R", "RT", "X", "CF", "YF":
 			hasExit = true
@@ -231,7 +264,7 @@ func nontrivial(t tcase) bool {
 
 func findingKey(t tcase, want outcome, o panrun.Obs) string {
 	last := t.Stmts[len(t.Stmts)-1]
-	lastDefer := last == "D" || last == "DT" || last == "DX" || last == "DN"
+	lastDefer := last == "D" || last == "DT" || last == "DX" || last == "DN" || last == "DC"
 	class := "trace"
 	if o.Out == want.out {
 		class = "outcome"
@@ -303,7 +336,7 @@ func gen(c *core.Ctx, emit func(tcase)) {
 			rec(alpha, max, append(cur, a), ctxs)
 		}
 	}
-	fn := []string{"call", "nested", "try"}
+	fn := []string{"call", "nested", "try", "nested3", "method", "chain-elem"}
 	if c.Thorough() {
 		rec(alphabet, 5, nil, fn)
 		rec(iterAlphabet, 5, nil, []string{"iter"})
